@@ -4,7 +4,7 @@
 # suites (with and without css), and that the demonstration fails with the
 # change and passes without it.  Prints CONFIRMED or the reason it is not.
 WT="$1"; M="$2"; NAME="$(basename "$M")"
-export CARGO_NET_OFFLINE=true CARGO_TARGET_DIR="$WT/target"
+export CARGO_NET_OFFLINE=true CARGO_TARGET_DIR="${CONFIRM_TARGET:-$WT/target}"
 cd "$WT" || exit 2
 git checkout -q -- . ; rm -rf tests/demo_*.rs
 css=""; grep -q 'feature = "css"' "$M/demo.rs" && css="--features css"
